@@ -279,7 +279,7 @@ def replay(prop, path):
     exe = build()
     case = json.load(open(path))["case"]
     args = []
-    for k in ("scenario", "p", "m", "backlog", "racer", "cycles", "glib", "hist", "racer-at", "nested"):
+    for k in ("scenario", "p", "m", "backlog", "racer", "cycles", "glib", "hist", "racer-at", "nested", "racer-reset"):
         if k in case and case[k] != "":
             args += ["--" + k, case[k]]
     import subprocess
